@@ -126,7 +126,7 @@ def _churn_spectra(L, s, opname, operands, left):
         t = L.radiometry.Spectrum(np.array(wave, dtype=float), np.array(value, dtype=float), waveunit=unit)
         try:
             r = getattr(t, opname)(s) if left else getattr(s, opname)(t)
-            out.append((np.array(r.wave, dtype=float).tolist(), np.array(r.value, dtype=float).tolist(), str(r.waveunit)))
+            out.append((np.array(r.wave, dtype=float), np.array(r.value, dtype=float), str(r.waveunit)))
             del r
         except Exception as e:      # noqa
             out.append(type(e).__name__)
@@ -202,6 +202,58 @@ def _crop_finite(L, s):
     return None
 
 
+_FOREIGN_SEEDED = """
+import hashlib, sys, json, numpy as np, lentil
+def dig(a):
+    a = np.ascontiguousarray(np.asarray(a))
+    return hashlib.sha1(str(a.dtype).encode() + str(a.shape).encode() + a.tobytes()).hexdigest()
+img = np.arange(48, dtype=float).reshape(6, 8) * 350.0 + 2000.0
+mask = lentil.circle((12, 12), 5.2)
+out = {}
+for seed in (0, 5, 12345, [3, 4]):
+    k = json.dumps(seed)
+    out['shot_poisson/' + k] = dig(lentil.detector.shot_noise(img, method='poisson', seed=seed))
+    out['shot_gaussian/' + k] = dig(lentil.detector.shot_noise(img, method='gaussian', seed=seed))
+    out['read/' + k] = dig(lentil.detector.read_noise(img, 7.5, seed=seed))
+    out['dark/' + k] = dig(lentil.detector.dark_current(40.5, shape=(5, 6), fpn_factor=0.2, seed=seed))
+    out['rule07/' + k] = dig(lentil.detector.rule07_dark_current(120.0, 5e-6, 18e-6, shape=(4, 5), fpn_factor=0.2, seed=seed))
+    out['psd/' + k] = dig(lentil.power_spectrum(mask, pixelscale=1e-3, rms=5e-8, half_power_freq=8.0, exp=3.0, seed=seed))
+sys.stdout.write(json.dumps(out, sort_keys=True))
+"""
+
+
+def _foreign_seeded(L, hashseed):
+    """Every seeded model evaluated with fixed arguments here and in a second interpreter started with another string-hash seed (any
+    later session, any spawned worker): "a deterministic function of its arguments and seed" holds across interpreters too.
+    -> {call: (digest here, digest there)}"""
+    import json
+    import subprocess
+    import sys
+    root = os.path.dirname(os.path.dirname(os.path.abspath(L.__file__)))
+    res = []
+    for hs in (None, hashseed):
+        env = dict(os.environ, PYTHONPATH=root, PYTHONDONTWRITEBYTECODE='1', OMP_NUM_THREADS='1', OPENBLAS_NUM_THREADS='1', MKL_NUM_THREADS='1')
+        if hs is None:
+            env.pop('PYTHONHASHSEED', None)
+            env['PYTHONHASHSEED'] = '0'
+        else:
+            env['PYTHONHASHSEED'] = str(int(hs))
+        p = subprocess.run([sys.executable, '-c', _FOREIGN_SEEDED], env=env, capture_output=True, timeout=180)
+        if p.returncode != 0:
+            raise RuntimeError('the second interpreter failed: %s' % p.stderr.decode()[-300:])
+        res.append(json.loads(p.stdout.decode()))
+    return {k: (res[0][k], res[1].get(k)) for k in res[0]}
+
+
+def _series_read_noise(L, npix, sigma, nseeds, seed0):
+    """A small region read out again and again with consecutive seeds (a per-pixel noise measurement).  -> the samples, (nseeds, npix)"""
+    base = np.full((1, int(npix)), 1000.0)
+    out = np.empty((int(nseeds), int(npix)))
+    for j in range(int(nseeds)):
+        out[j] = np.asarray(L.detector.read_noise(base, sigma, seed=int(seed0) + j), dtype=float).ravel() - 1000.0
+    return out
+
+
 def _assign_values(L, s, seed):
     """The owner assigns new values, one per current wavelength, through the documented attribute."""
     g = np.random.Generator(np.random.PCG64(int(seed)))
@@ -245,6 +297,7 @@ FNS = {
     'Tilt.shift': lambda L, t, **k: t.shift(**k),
     # ---- wavefronts and propagation
     'Wavefront': lambda L, *a, **k: L.Wavefront(*a, **k),
+    'Wavefront.empty': lambda L, *a, **k: L.Wavefront.empty(*a, **k),
     'Wavefront.insert': lambda L, w, out, weight=1: w.insert(out, weight),
     'Wavefront.like': _wavefront_empty_like,
     'propagate_dft': lambda L, w, **k: L.propagate_dft(w, **k),
@@ -307,6 +360,8 @@ FNS = {
     'h.pad_nonfinite': _pad_nonfinite,
     'h.crop_finite': _crop_finite,
     'pylist': lambda L, values: list(values),
+    'foreign.seeded': _foreign_seeded,
+    'series.read_noise': _series_read_noise,
     'churn.planes': _churn_planes,
     'churn.views': _churn_views,
     'churn.spectra': _churn_spectra,
